@@ -38,6 +38,10 @@ pub fn install_silent_panic_hook() {
     }));
 }
 
+pub fn last_panic() -> String {
+    LAST_PANIC.lock().map(|g| g.clone()).unwrap_or_default().replace('\n', " ")
+}
+
 // ---------------------------------------------------------------- values
 
 #[derive(Clone, Debug, PartialEq)]
